@@ -1,4 +1,5 @@
 import BarterModel.Lemmas.Connectivity
+import BarterModel.Lemmas.KernelsAgree.Connectivity
 /-!
 # C14 — Global connectivity is healthy exactly when every exchange link is
 
@@ -210,5 +211,15 @@ example : (Eng.run (Eng.init 2) [.marketItem 0, .accountItem 0, .marketItem 1, .
     .accountReconnecting 1]).conn.global = .reconnecting := by decide
 example : (Eng.run (Eng.init 2) [.marketItem 0, .accountItem 0, .marketItem 1, .accountItem 1,
     .accountReconnecting 1, .accountItem 1]).conn.global = .healthy := by decide
+
+/-- **Tie to the source by translation** (the part of connectivity/mod.rs the translator accepts):
+`enum Health` with its `Default`, `struct ConnectivityState` and `ConnectivityState::all_healthy`
+are regenerated from the current source by `tools/rust2lean_sm.py` on every run and equal the
+model's `Health`, `CState` and `allHealthy` through a record bijection; the default health is
+`reconnecting`. The per-exchange update arms use `IndexMap` accessors and iterator adaptors the
+translator rejects; they stay tied by the correspondence run. -/
+theorem kernels_agree_with_source :
+    type_of% BarterModel.KernelsAgree.Connectivity.connectivity_kernels_agree :=
+  BarterModel.KernelsAgree.Connectivity.connectivity_kernels_agree
 
 end BarterModel.Props.C14
